@@ -136,6 +136,17 @@ fn step_div_mod_corners() {
                if a % b == 0 { assert!(matches!(q, Some(Number::Integer(v)) if v == a / b)) } else { assert!(matches!(q, Some(Number::Float(_)))) } }
         j += 1; } i += 1; } }
 
+// @obligation owners=C09,C01,C15 fn=eval_number::ast::eval/Divide(Integer,Integer) bounded="the one corner pair MIN / -1 (concrete): the quotient 2^63 does not fit, so the result is the Float of the operands"
+#[kani::proof]
+fn step_div_min_by_minus_one() {
+    let q = ok(eval(Node::Divide(int(i64::MIN), int(-1))));
+    assert!(matches!(q, Some(Number::Float(f)) if f == 9223372036854775808.0), "MIN / -1 is the Float 2^63, never a wrapped Integer"); }
+// @obligation owners=C09,C01 fn=eval_number::ast::eval/Modulo(Integer,Integer) bounded="the one corner pair MIN % -1 (concrete)"
+#[kani::proof]
+fn step_mod_min_by_minus_one() {
+    let m = ok(eval(Node::Modulo(int(i64::MIN), int(-1))));
+    assert!(matches!(m, Some(Number::Integer(0))), "MIN % -1 is 0"); }
+
 // ---- unary minus, abs, sgn ----------------------------------------------------------------------------------------
 // @obligation owners=C09,C15 fn=eval_number::ast::eval/Negative
 #[kani::proof]
